@@ -271,6 +271,8 @@ class PX:
             v = pl[1]
             if v[0] == 'ref':
                 return self.read(st, v[1])
+            if v[0] == 'cref':
+                return v[1]              # a by-value snapshot behind a reference
             c = self.canon(st, pl)
             if c in st.store:
                 return st.store[c]
@@ -663,6 +665,8 @@ class PX:
             return (k, tuple(self.deep_snap(st, x, depth + 1) for x in v[1]))
         if k == 'adt':
             return ('adt', v[1], v[2], tuple(self.deep_snap(st, x, depth + 1) for x in v[3]))
+        if k == 'closure':
+            return ('closure', v[1], tuple(self.deep_snap(st, x, depth + 1) for x in v[2]))
         return v
 
     def snap_args(self, st, args):
@@ -1137,7 +1141,7 @@ class PX:
         if name in self.p.bodies:
             return name
         # <T as Into<U>>::into  ->  <U as From<T>>::from in the repository
-        if name.endswith('<T as std::convert::Into<U>>::into'):
+        if name.endswith('<T as std::convert::Into<U>>::into') or name.endswith('convert::Into::into'):
             ga = t['ga'].strip('[]')
             parts = [x.strip() for x in self.split_top(ga)]
             if len(parts) == 2:
@@ -1189,6 +1193,11 @@ class PX:
             return self._run(st, clos[1], [clos] + list(args), depth + 1)
         if clos[0] == 'fn' and clos[1] in self.p.bodies and not self.p.has_loops(clos[1]):
             return self._run(st, clos[1], list(args), depth + 1)
+        if clos[0] == 'fn' and clos[1] not in self.p.bodies:
+            # a trait method item (`Into::into`) that resolves to a repository impl: inline it
+            tgt = self.resolve(clos[1], {'ga': clos[2] if len(clos) > 2 else ''}, list(args))
+            if tgt is not None and tgt in self.p.bodies and not self.p.has_loops(tgt):
+                return self._run(st, tgt, list(args), depth + 1)
         if clos[0] == 'fn' and clos[1] not in self.p.bodies:
             # an external function with a semantic model (u8 / TinyStr predicates, conversions ...) used as a callback
             fake = {'ga': clos[2] if len(clos) > 2 else '', 'dest': {'ty': '', 'l': 0, 'p': []}, 'sp': None, 'args': [], 'f': clos[1], 'r': clos[1]}
